@@ -259,22 +259,35 @@ WHITELIST = [
      "Result<OracleDate>", "SqlDt.OracleDate.subIntervalYm"),
 ]
 
-# ---- the calendar units (phase 5, first part): the `Trunc` / `Round` functions of `Date` that are proved so far, and the
-# two functions behind the week tables.  The translator handles ALL of `impl Trunc/Round for Date | Timestamp | oracle::Date`
-# and their helpers (function-pointer tables, nested `fn`, `?` inside a branch): add a line here once its `_eq`/`_safe` exist.
-WHITELIST += [
+# ---- the calendar units: `Trunc` / `Round` for Date, Timestamp and the Oracle-style date (phases 5 and 5b).
+# The translator handles all of them; an entry is listed here only once its `_eq` and `_safe` theorems exist
+# (`UNITS_PROVED`: lean names without the `Tr.` prefix).
+UNITS = [("century", "century"), ("year", "year"), ("iso_year", "isoYear"), ("quarter", "quarter"), ("month", "month"),
+         ("week", "week"), ("iso_week", "isoWeek"), ("month_start_week", "monthStartWeek"), ("day", "day"),
+         ("sunday_start_week", "sundayStartWeek"), ("hour", "hour"), ("minute", "minute")]
+UNITS_PROVED = set(['Date.round_century', 'Date.round_day', 'Date.round_hour', 'Date.round_iso_week', 'Date.round_minute', 'Date.round_month', 'Date.round_month_start_week', 'Date.round_month_start_week_internal', 'Date.round_quarter', 'Date.round_sunday_start_week', 'Date.round_week', 'Date.round_week_internal', 'Date.round_year', 'Date.trunc_century', 'Date.trunc_day', 'Date.trunc_hour', 'Date.trunc_iso_week', 'Date.trunc_minute', 'Date.trunc_month', 'Date.trunc_month_start_week', 'Date.trunc_quarter', 'Date.trunc_sunday_start_week', 'Date.trunc_week', 'Date.trunc_year', 'current_date', 'sub_to_date'])
+_units_wl = [
     ("date.rs", None, "sub_to_date", "sub_to_date", "date: Date, sub_day: i32", "Result<Date>",
      "fun d k => SqlDt.Date.subDays d k"),
     ("date.rs", None, "current_date", "current_date", "date: Date, _sub_day: i32", "Result<Date>",
      "fun d _ => Except.ok d"),
+    ("date.rs", None, "week_day_of_julian", "week_day_of_julian", "date: i32", "i32", "SqlDt.Date.weekDayOfJulian"),
+    ("date.rs", "Date", "date_to_iso_year", "Date.date_to_iso_year", "self", "i32", "SqlDt.Date.dateToIsoYear"),
+    ("date.rs", "Date", "round_week_internal", "Date.round_week_internal", "self, year: i32", "Result<Date>",
+     "SqlDt.Date.roundWeekInternal"),
+    ("date.rs", "Date", "round_month_start_week_internal", "Date.round_month_start_week_internal", "self, day: i32",
+     "Result<Date>", "SqlDt.Date.roundMonthStartWeekInternal"),
 ]
-for _op, _Op, _units in (("trunc", "Trunc", [("year", "year"), ("week", "week"), ("day", "day"), ("hour", "hour"), ("minute", "minute"),
-                                            ("sunday_start_week", "sundayStartWeek")]),
-                         ("round", "Round", [("century", "century"), ("year", "year"), ("day", "day"), ("hour", "hour"),
-                                            ("minute", "minute")])):
-    for _u, _U in _units:
-        WHITELIST.append(("date.rs", "%s for Date" % _Op, "%s_%s" % (_op, _u), "Date.%s_%s" % (_op, _u), "self", "Result<Date>",
-                          "SqlDt.Date.%s SqlDt.TUnit.%s" % (_op, _U)))
+_have = set((f, i, n) for (f, i, n, _l, _p, _r, _m) in WHITELIST)
+for _op, _Op in (("trunc", "Trunc"), ("round", "Round")):
+    for _u, _U in UNITS:
+        for _file, _ty in (("date.rs", "Date"), ("timestamp.rs", "Timestamp"), ("oracle.rs", "OracleDate")):
+            _key = (_file, "%s for %s" % (_Op, _ty), "%s_%s" % (_op, _u))
+            if _key in _have:
+                continue
+            _units_wl.append((_file, _key[1], _key[2], "%s.%s_%s" % (_ty, _op, _u), "self", "Result<%s>" % _ty,
+                              "SqlDt.%s.%s SqlDt.TUnit.%s" % (_ty, _op, _U)))
+WHITELIST += [e for e in _units_wl if UNITS_PROVED is None or e[3] in UNITS_PROVED]
 
 # Derived constants (not literal in the Rust, hence not in Generated.lean): (file, name, model term)
 CONST_WHITELIST = [
@@ -1759,6 +1772,21 @@ def assigned_vars(node, out):
             assigned_vars(x, out)
 
 
+def add_vars_to_tail(e, mv):
+    """The value expression `e` with every tail `t` replaced by the tuple `(t, mv...)`."""
+    if e[0] == "block":
+        if e[2] is None:
+            raise Unsupported("a value block without a tail expression assigns outer variables")
+        return ("block", e[1], add_vars_to_tail(e[2], mv))
+    if e[0] == "if":
+        if e[3] is None:
+            raise Unsupported("an `if` without `else` used as a value assigns outer variables")
+        return ("if", e[1], add_vars_to_tail(e[2], mv), add_vars_to_tail(e[3], mv))
+    if e[0] == "match":
+        return ("match", e[1], [(p, g, add_vars_to_tail(b, mv)) for p, g, b in e[2]])
+    return ("tuple", [e] + [("path", [v]) for v in mv])
+
+
 def let_bound(items, out):
     """Names bound by top-level `let`s of a statement list."""
     def pat_names(p):
@@ -1848,6 +1876,7 @@ class Translator(object):
         self.inlined = []
         self.try_binds = None
         self.counter = 0
+        self.assign_ok = 0
         self.unrolled = 0
         self.ret_type = None
 
@@ -2132,6 +2161,12 @@ class Translator(object):
                 dflt = ("tuple", [A("false") if isinstance(c, tuple) else ("num", 0) for c in el[1]])
                 return ("app", "idxD", [n, ix, dflt], ("idx", length)), el
             raise Unsupported("indexing an array of %s" % type_str(el))
+        if k in ("block", "if", "match") and not self.assign_ok:
+            names = set()
+            assigned_vars(e, names)
+            lost = [v for v in env if v in names and not v.startswith("$")]
+            if lost:
+                raise Unsupported("assignment to the outer variable `%s` inside an expression whose value is used" % lost[0])
         if k == "block":
             if not e[1] and e[2] is not None:
                 return self.tr_expr(e[2], env, want)
@@ -2665,6 +2700,23 @@ class Translator(object):
         comment = self.src_comment(line) if line else None
         if kind == "let":
             _, pat, ty, init, _ = st
+            # `let q = if c { year += 1; a } else { b };` - a value block that also assigns outer variables:
+            # its value becomes the tuple (value, assigned variables...), re-bound here
+            if init[0] in ("if", "block", "match") and ty is None:
+                names = set()
+                assigned_vars(init, names)
+                mv = [v for v in env if v in names and not v.startswith("$")]
+                if mv:
+                    init = add_vars_to_tail(init, mv)
+                    pat = ("ptuple", [pat] + [("pvar", v) for v in mv])
+                    self.assign_ok = self.assign_ok + 1
+                    try:
+                        (val, vt), binds = self.with_tries(mode, lambda: self.tr_expr(init, env, None))
+                    finally:
+                        self.assign_ok = self.assign_ok - 1
+                    node, t = self.bind_pattern(pat, val, vt, env, comment,
+                                                lambda e2: self.seq(rest, e2, mode, rvars, want))
+                    return self.wrap_tries(binds, node, t)
             annotated = self.resolve(ty) if ty is not None else None
             (val, vt), binds = self.with_tries(mode, lambda: self.tr_expr(init, env, annotated))
             if annotated is not None:
